@@ -1,15 +1,116 @@
-(* W_json — the wire layer of JSON structure (json.go, json.base.go; bytesDecReader's json helpers).
-   Only statements, closed by [exact], with [Print Assumptions] beneath each. *)
+(* W_json — the wire layer of JSON structure (json.go, json.base.go; bytesDecReader's json helpers):
+   what the Encoder driver writes is what Decode(&interface{}) reads back; sequences of values on one
+   Decoder; the skip scanner ends.  Only statements, closed by [exact], with [Print Assumptions]
+   beneath each.  The lexical leaves (string quoting, float and time texts) are a parameter [L : leaf];
+   the round-trip statements assume [leaf_laws L] (JsonRT.v), which is property C09's subject. *)
 From Coq Require Import List NArith ZArith Bool Lia.
-From Verif Require Import Base.Outcome Wire.Item Gen.Consts Wire.Json Wire.JsonProofs.
+From Verif Require Import Base.Outcome Wire.Item Gen.Consts Wire.Json Wire.JsonProofs Wire.JsonRT.
 Import ListNotations.
 Open Scope N_scope.
+
+(* C01 at the wire level.  For every leaf implementation satisfying the leaf laws, encoder option vector,
+   decoder option vector, item json can carry ([jwf]: ranges; no tags/extensions; []byte as base64;
+   containers are not map keys; keys pairwise different once decoded; an unsigned value >= 2^63 is not read
+   under SignedInteger), position (map key or not; a key position only under a map[interface{}]interface{}
+   target, string-keyed maps go through DecodeStringAsBytes and are covered inside the IMap case),
+   indentation level, leading white space [ws] (any bytes < 33), trailing bytes [tl] (a bare number must not
+   be followed by another number character), starting depth and fuel linear in the encoding's length:
+   decoding the encoding yields exactly [norm] of the item and leaves the tokenizer in state [after ..]:
+   nothing pending, [tl] unread -- except after a bare number, whose terminating byte (the first byte of
+   [tl]) has been consumed as the pending token. *)
+Theorem W_json_dec_enc : forall (L : leaf), leaf_laws L ->
+  forall (o : eopts) (D : dopts) (key : bool) (lvl : N) (i : item) (ws tl : list N) (fuel : nat) (dp : Z),
+  jwf L o D key i -> (key = true -> smap D = false) -> forallb isws ws = true ->
+  delim_ok (isnum L o key i) tl ->
+  (2 * length (enc_at L o key lvl i) <= fuel)%nat -> (dp + Z.of_nat (depth i) < maxdepth D)%Z ->
+  dec L D fuel dp key (st0 (ws ++ enc_at L o key lvl i ++ tl))
+    = Ok (norm L o D key i, after (isnum L o key i) tl).
+Proof. exact dec_enc_lemma. Qed.
+Print Assumptions W_json_dec_enc.
+
+(* the API form: one Encode call (with its TermWhitespace byte), then Decode(&interface{}) on a fresh
+   Decoder over the output followed by anything; what is left unread is spelled out *)
+Theorem W_json_dec_naked_enc : forall (L : leaf), leaf_laws L ->
+  forall (o : eopts) (D : dopts) (i : item) (rest : list N),
+  jwf L o D false i -> (termWs o = true \/ delim_ok (isnum L o false i) rest) ->
+  (Z.of_nat (depth i) < maxdepth D)%Z ->
+  dec_naked L D (dec_fuel (st0 (enc_top L o i ++ rest))) (enc_top L o i ++ rest)
+    = Ok (norm L o D false i, inp (after (isnum L o false i) (term o ++ rest))).
+Proof. exact dec_naked_enc_lemma. Qed.
+Print Assumptions W_json_dec_naked_enc.
+
+(* C11 at the wire level, sequences: values written by successive Encode calls, each followed by any white
+   space (a bare number needs TermWhitespace or at least one white-space byte: [doc_ok]), then anything:
+   successive Decode calls on ONE Decoder (the pending token carries over) return the values in order, and
+   NumBytesRead after the k-th call is the total minus what [seq_expect] lists as unread: everything after
+   the k-th encoding, less the one delimiter byte a bare number consumes. *)
+Theorem W_json_seq : forall (L : leaf), leaf_laws L ->
+  forall (o : eopts) (D : dopts) (rest : list N) (total : N) (docs : list (item * list N)) (num : bool) (pre : list N),
+  Forall (doc_ok L o D) docs -> forallb isws pre = true ->
+  dec_seq L D (length docs) total (after num (pre ++ enc_seq L o docs ++ rest))
+    = Ok (map (fun vr => (fst vr, total - snd vr)) (seq_expect L o D docs rest)).
+Proof. exact seq_lemma. Qed.
+Print Assumptions W_json_seq.
 
 (* C02 at the wire level, skip side: nextValueBytes is a loop over the input bytes (the model's
    scanner is structurally recursive on the input): for EVERY byte list it ends, with a value or an error. *)
 Theorem W_json_skip_total : forall (fuel : nat) (l : list N), skip fuel l <> OutOfFuel.
 Proof. exact skip_total_lemma. Qed.
 Print Assumptions W_json_skip_total.
+
+(* ---- non-vacuity: the statements' conclusions on concrete data, with C09's string code and observed
+   float / time texts as the leaf *)
+Definition exT : tables :=
+  mktables [(4609434218613702656, [49; 46; 53])] [] [([49; 46; 53], 4609434218613702656)]
+           [(1%Z, 5, [49; 57; 55; 48; 45; 48; 49; 45; 48; 49; 84; 48; 48; 58; 48; 48; 58; 48; 49; 46; 48; 48; 48; 48; 48; 48; 48; 48; 53; 90])].
+Definition exL : leaf := c09_leaf exT.
+Definition exI : item :=
+  IMap [(IStr [97], IArr [IInt (-3); IUint 5; IF64 4609434218613702656; INil; IBool true; IStr [34; 60; 233]]);
+        (IInt 7, IMap []); (IBool true, IBytes [1; 2; 3; 4]); (IStr [116], ITime 1 5)].
+
+Example W_json_dec_enc_nonvacuous :
+  let o := mkeopts 2 76 false true true false false in
+  let D := mkdopts false false true true 0 in
+  jwf exL o D false exI /\
+  enc_top exL o exI =
+    [123; 10; 32; 32; 34; 97; 34; 58; 32; 91; 10; 32; 32; 32; 32; 45; 51; 44; 10; 32; 32; 32; 32; 53; 44; 10; 32; 32; 32; 32;
+     49; 46; 53; 44; 10; 32; 32; 32; 32; 110; 117; 108; 108; 44; 10; 32; 32; 32; 32; 116; 114; 117; 101; 44; 10; 32; 32; 32; 32;
+     34; 92; 34; 92; 117; 48; 48; 51; 99; 92; 117; 70; 70; 70; 68; 34; 10; 32; 32; 93; 44; 10; 32; 32; 34; 55; 34; 58; 32; 123; 125; 44;
+     10; 32; 32; 34; 116; 114; 117; 101; 34; 58; 32; 34; 65; 81; 73; 68; 66; 65; 61; 61; 34; 44; 10; 32; 32; 34; 116; 34; 58; 32;
+     34; 49; 57; 55; 48; 45; 48; 49; 45; 48; 49; 84; 48; 48; 58; 48; 48; 58; 48; 49; 46; 48; 48; 48; 48; 48; 48; 48; 48; 53; 90; 34; 10; 125; 32] /\
+  dec_naked exL D 400 (enc_top exL o exI ++ [49]) = Ok (norm exL o D false exI, [32; 49]) /\
+  norm exL o D false exI =
+    IMap [(IStr [97], IArr [IInt (-3); IUint 5; IF64 4609434218613702656; INil; IBool true; IStr [34; 60; 239; 191; 189]]);
+          (IUint 7, IMap []); (IBool true, IStr [65; 81; 73; 68; 66; 65; 61; 61]);
+          (IStr [116], IStr [49; 57; 55; 48; 45; 48; 49; 45; 48; 49; 84; 48; 48; 58; 48; 48; 58; 48; 49; 46; 48; 48; 48; 48; 48; 48; 48; 48; 53; 90])].
+Proof.
+  cbv zeta. split; [|split; [|split]].
+  - vm_compute. intuition (try discriminate; try reflexivity; try lia).
+  - vm_compute. reflexivity.
+  - vm_compute. reflexivity.
+  - vm_compute. reflexivity.
+Qed.
+
+(* sequences: three Encode calls without TermWhitespace, separated by white space where a number needs it;
+   the pending token after a bare number shows in NumBytesRead (4 = 3 digits + the delimiter) *)
+Example W_json_seq_nonvacuous :
+  let o := mkeopts 0 0 false false false false false in
+  let D := mkdopts false false false false 0 in
+  let docs := [(IUint 123, [32]); (IArr [IBool true], []); (IInt (-5), [10])] in
+  Forall (doc_ok exL o D) docs /\
+  enc_seq exL o docs = [49; 50; 51; 32; 91; 116; 114; 117; 101; 93; 45; 53; 10] /\
+  dec_seq exL D 3 13 (st0 (enc_seq exL o docs)) = Ok [(IUint 123, 4); (IArr [IBool true], 10); (IInt (-5), 13)] /\
+  dec_seq exL D 2 7 (st0 [49; 50; 51; 44; 52; 53; 54]) = Err EOther.
+Proof.
+  cbv zeta. split; [|split; [|split]].
+  - repeat (apply Forall_cons || apply Forall_nil);
+      (split; [vm_compute; intuition (try discriminate; try lia)
+              |split; [reflexivity|split; [vm_compute; reflexivity
+              |intros H; first [right; discriminate | vm_compute in H; discriminate]]]]).
+  - vm_compute. reflexivity.
+  - vm_compute. reflexivity.
+  - vm_compute. reflexivity.
+Qed.
 
 Example W_json_skip_nonvacuous :
   skip 0 [91; 34; 93; 92; 34; 34; 44; 123; 125; 93; 49] = Ok [49] /\ skip 0 [91; 91; 93] = Err EEof /\
